@@ -233,6 +233,25 @@ func xbytes(m map[string]string) map[string][]byte {
 	return out
 }
 
+// xarg builds the xattr argument of an op; with BadJSONX one value is replaced by unparseable JSON.
+func xarg(o *Op) map[string][]byte {
+	out := xbytes(o.X)
+	if o.BadJSONX {
+		if out == nil {
+			out = map[string][]byte{}
+		}
+		name := "_x"
+		for _, n := range XattrPool {
+			if _, ok := out[n]; ok {
+				name = n
+				break
+			}
+		}
+		out[name] = []byte(`{"unterminated": [1, 2`)
+	}
+	return out
+}
+
 func xstrings(m map[string][]byte) map[string]string {
 	if len(m) == 0 {
 		return nil
@@ -361,27 +380,27 @@ func Exec(b *rosmar.Bucket, c *rosmar.Collection, o *Op) (res Result) {
 		res.Val, res.CasOut, err = c.GetAndTouchRaw(o.Key, o.Exp)
 	case KSetX:
 		res.HasCas = true
-		res.CasOut, err = c.SetXattrs(ctx, o.Key, xbytes(o.X))
+		res.CasOut, err = c.SetXattrs(ctx, o.Key, xarg(o))
 	case KRemoveX:
 		err = c.RemoveXattrs(ctx, o.Key, o.XDel, o.Cas)
 	case KDelPaths:
 		err = c.DeleteSubDocPaths(ctx, o.Key, o.XDel...)
 	case KUpdateX:
 		res.HasCas = true
-		res.CasOut, err = c.UpdateXattrs(ctx, o.Key, o.Exp, o.Cas, xbytes(o.X), mutateOpts(o, false))
+		res.CasOut, err = c.UpdateXattrs(ctx, o.Key, o.Exp, o.Cas, xarg(o), mutateOpts(o, false))
 	case KWriteWX:
 		res.HasCas = true
 		var v []byte = body
 		if o.BodyNil {
 			v = nil
 		}
-		res.CasOut, err = c.WriteWithXattrs(ctx, o.Key, o.Exp, o.Cas, v, xbytes(o.X), o.xdelArg(), mutateOpts(o, false))
+		res.CasOut, err = c.WriteWithXattrs(ctx, o.Key, o.Exp, o.Cas, v, xarg(o), o.xdelArg(), mutateOpts(o, false))
 	case KWriteTomb:
 		res.HasCas = true
-		res.CasOut, err = c.WriteTombstoneWithXattrs(ctx, o.Key, o.Exp, o.Cas, xbytes(o.X), o.xdelArg(), o.DelBody, mutateOpts(o, false))
+		res.CasOut, err = c.WriteTombstoneWithXattrs(ctx, o.Key, o.Exp, o.Cas, xarg(o), o.xdelArg(), o.DelBody, mutateOpts(o, false))
 	case KWriteRes:
 		res.HasCas = true
-		res.CasOut, err = c.WriteResurrectionWithXattrs(ctx, o.Key, o.Exp, body, xbytes(o.X), mutateOpts(o, false))
+		res.CasOut, err = c.WriteResurrectionWithXattrs(ctx, o.Key, o.Exp, body, xarg(o), mutateOpts(o, false))
 	case KWriteUpd:
 		res.HasCas = true
 		calls := 0
@@ -394,7 +413,7 @@ func Exec(b *rosmar.Bucket, c *rosmar.Collection, o *Op) (res Result) {
 					cv.Body = nil
 				}
 				res.CbSaw = append(res.CbSaw, cv)
-				ud := sgbucket.UpdatedDoc{Xattrs: xbytes(o.X), XattrsToDelete: o.xdelArg(), Expiry: o.CbExp}
+				ud := sgbucket.UpdatedDoc{Xattrs: xarg(o), XattrsToDelete: o.xdelArg(), Expiry: o.CbExp}
 				switch o.Mode {
 				case "body": // body + xattrs
 					ud.Doc = body
